@@ -1,7 +1,7 @@
 """C15 Time-shifting operators move notifications by the requested time (E1, bounded-exhaustive).
 
 Enumerated completely per tier: every operator instance of `instances()` x every timeline of
-`timeref.gap_timelines` (<=N elements over a 2/3-value alphabet, consecutive gaps from
+`timeref.gap_timelines` (<=N elements, consecutive gaps from
 {0,5,10,15} so that gaps are <, = and > every delay, bursts, completion/error/no terminal
 at every gap incl. the instant of the last element), on a numeric (TestScheduler-based) and
 a datetime (HistoricalScheduler-based) virtual clock.  Oracle: the statement's rule as a
@@ -30,7 +30,8 @@ META = {
 }
 RULE = (
     "all (instance, timeline) pairs: instance = operator x parameter x parameter form x clock kind; timelines = every sequence of <=N on_next "
-    "over the alphabet with consecutive gaps in {0,5,10,15} followed by nothing, completion or error after every gap in {0,5,10,15}; "
+    "with consecutive gaps in {0,5,10,15} followed by nothing, completion or error after every gap in {0,5,10,15}; "
+    "element values: every word over two values (thorough: additionally pairwise distinct positional values); "
     "non-trivial = the source emitted >=1 element and (the reference output differs from the source's own events or a same-instant tie "
     "was resolved); distinct = (instance, timeline)"
 )
@@ -185,9 +186,10 @@ class Stamp:
 # ------------------------------------------------------------------ instances
 
 class Inst:
-    def __init__(self, iid, clock, build, model, extra=None, watch=(), norm=None, first_gaps=None):
+    def __init__(self, iid, clock, build, model, extra=None, watch=(), norm=None, first_gaps=None, values="pos", deep=True):
         self.iid, self.clock, self.build, self.model = iid, clock, build, model
         self.extra, self.watch, self.norm, self.first_gaps = extra or {}, watch, norm, first_gaps
+        self.values, self.deep = values, deep  # see timeref.instance_timelines
 
 
 # per-element delay observables (relative timelines); D0 completes inside subscribe ("completes first")
@@ -206,25 +208,28 @@ def bounds(tier):
     if tier == "quick":
         return {
             "N": 3,
-            "alphabet": 2,
             "delays": (0, 5, 10, 25),
             "clocks": {"num": ("rel", "td", "abs"), "dt": ("rel", "abs")},
             "delay_obs": ("sync", "n5", "n10n20", "c10"),
-            "sub_delays": ("none", "n10"),
+            # (clock, subscription delay, delay observables of the two alphabet values)
+            "dwm": [("num", "none", da, db) for da in ("sync", "n5", "n10n20", "c10") for db in ("sync", "n5", "n10n20", "c10")]
+            + [("num", "n10", "n5", db) for db in ("sync", "n5", "n10n20")] + [("dt", "none", "n5", "n10n20"), ("dt", "c5", "c10", "sync")],
         }
+    names = ("sync", "n5", "n10n20", "c10", "never", "n0")
     return {
         "N": 4,
-        "alphabet": 2,
         "delays": (0, 5, 10, 25),
         "clocks": {"num": ("rel", "float", "td", "abs"), "dt": ("rel", "float", "td", "abs")},
-        "delay_obs": ("sync", "n5", "n10n20", "c10", "never", "n0"),
-        "sub_delays": ("none", "n10", "c5"),
+        "delay_obs": names,
+        "dwm": [("num", "none", da, db) for da in names for db in names]
+        + [("dt", "none", da, db) for da in names[:4] for db in names[:4]]
+        + [("num", sd, da, db) for sd in ("n10", "c5") for da in names[:4] for db in names[:4]],
     }
 
 
 def seed_params(seed):
     rot = seed % 3
-    vals = (1 + 10 * rot, 2 + 10 * rot, 3 + 10 * rot)
+    vals = (1 + 10 * rot, 2 + 10 * rot, 3 + 10 * rot, 4 + 10 * rot)
     sub = (200, 300, 250)[rot]
     return vals, sub
 
@@ -256,7 +261,7 @@ def instances(tier, seed):
                     lambda K, S, d=d, form=form: S["src"].pipe(ops.delay(time_arg(K, form, d, sub), scheduler=K.sched)),
                     lambda tl, d=d: Delay(tl, d), first_gaps=(5,),
                 )
-        for d in b["delays"][:3]:
+        for d in ((0, 10) if tier == "quick" else (0, 5, 10)):
             for form in forms:
                 yield Inst(
                     f"delay_subscription:{form}:{d}:{clock}", clock,
@@ -278,43 +283,31 @@ def instances(tier, seed):
         yield Inst(f"time_interval:{clock}", clock, lambda K, S: S["src"].pipe(ops.time_interval(scheduler=K.sched)), lambda tl: Stamp(tl, True), norm=stamp_norm)
 
     # delay_with_mapper: the element's value selects its delay observable
-    names = b["delay_obs"]
-    for clock in (("num",) if tier == "quick" else ("num", "dt")):
-        for sdn in b["sub_delays"]:
-            for da in names:
-                for db in names:
-                    if sdn != "none" and not (da == names[1] and db in names[:3]) and tier == "quick":
-                        continue
-                    delays = {A: DELAY_OBS[da], B: DELAY_OBS[db]}
-                    extra = {f"d{A}": DELAY_OBS[da], f"d{B}": DELAY_OBS[db]}
-                    sd = SUB_DELAYS[sdn]
-                    if sd is not None:
-                        extra["sd"] = sd
+    for (clock, sdn, da, db) in b["dwm"]:
+        delays = {A: DELAY_OBS[da], B: DELAY_OBS[db]}
+        extra = {f"d{A}": DELAY_OBS[da], f"d{B}": DELAY_OBS[db]}
+        sd = SUB_DELAYS[sdn]
+        if sd is not None:
+            extra["sd"] = sd
 
-                    def build(K, S, sd=sd):
-                        mapper = lambda x: S[f"d{x}"]
-                        if sd is None:
-                            return S["src"].pipe(ops.delay_with_mapper(mapper))
-                        return S["src"].pipe(ops.delay_with_mapper(S["sd"], mapper))
+        def build(K, S, sd=sd):
+            mapper = lambda x: S[f"d{x}"]
+            if sd is None:
+                return S["src"].pipe(ops.delay_with_mapper(mapper))
+            return S["src"].pipe(ops.delay_with_mapper(S["sd"], mapper))
 
-                    yield Inst(
-                        f"delay_with_mapper:{sdn}:{da}:{db}:{clock}", clock, build,
-                        lambda tl, delays=delays, sd=sd: DelayWithMapper(tl, delays, sd),
-                        extra=extra, watch=("src",), first_gaps=(5,),
-                    )
+        yield Inst(
+            f"delay_with_mapper:{sdn}:{da}:{db}:{clock}", clock, build,
+            lambda tl, delays=delays, sd=sd: DelayWithMapper(tl, delays, sd),
+            extra=extra, watch=("src",), first_gaps=(5,), values="alpha",
+        )
 
 
 def all_cases(tier, seed):
-    b = bounds(tier)
     vals, _ = seed_params(seed)
     cache = {}
     for inst in instances(tier, seed):
-        # delay_with_mapper's behaviour depends on the value (it selects the delay observable):
-        # full alphabet; the others are value-agnostic apart from order: the same alphabet.
-        key = inst.first_gaps
-        if key not in cache:
-            cache[key] = list(timeref.gap_timelines(b["N"], vals[: b["alphabet"]], GAPS, first_gaps=inst.first_gaps))
-        for tl in cache[key]:
+        for tl in timeref.instance_timelines(tier, inst.values, inst.deep, vals, GAPS, inst.first_gaps, cache):
             yield inst, tl
 
 
@@ -361,9 +354,10 @@ def shard(part: core.Part, shard_i, nshards, tier, seed, deadline):
 
 def run(ctx: core.Ctx):
     b = bounds(ctx.tier)
-    ctx.bounds = {"N": b["N"], "alphabet_size": b["alphabet"], "gaps": list(GAPS), "delays": list(b["delays"]),
+    ctx.bounds = {"N": b["N"], "gaps": list(GAPS), "delays": list(b["delays"]),
+                  "values": "every word over 2 values" + (" (plus positional distinct values)" if ctx.tier != "quick" else ""),
                   "clocks_and_forms": {k: list(v) for k, v in b["clocks"].items()}, "delay_observables": list(b["delay_obs"]),
-                  "subscription_delays": list(b["sub_delays"])}
+                  "delay_with_mapper_instances": len(b["dwm"])}
     ctx.assumptions = [
         "VirtualTimeScheduler queue discipline (checked separately by C28/C29)",
         "harness LoggedCold source is conforming",
